@@ -224,6 +224,8 @@ def fragment(key, name, select, props=(), mode="expr"):
     c.fragment = dict(select=select, mode=mode, name=name)
     c.short = c.qualname + "#" + name
     c.key = key + "#" + name
+    if c.key in REGISTRY:
+        raise ValueError("contract key %s is already registered" % c.key)
     REGISTRY[c.key] = c
     return c
 
